@@ -51,6 +51,21 @@ impl FileOperations for WriteAheadLog {
         let fs_block_size = FileSystem::block_size(&path)?;
         let default_block_size = WAL_BLOCK_SIZE.next_multiple_of(fs_block_size);
 
+        // A log shorter than its header block holds no records. This is what a crash between
+        // the truncation at the end of a checkpoint and the rewrite of block zero leaves behind.
+        if file.seek(SeekFrom::End(0))? < default_block_size as u64 {
+            let mut wal = Self {
+                header: BlockZero::alloc(0, default_block_size),
+                current_block: None,
+                flush_queue: VecDeque::new(),
+                file,
+                block_size: default_block_size,
+                flushed_blocks: 1,
+            };
+            wal.write_header()?;
+            return Ok(wal);
+        }
+
         // Read block 0 (global header)
         let mut header_buf: BlockZero = BlockZero::new(default_block_size);
         file.seek(SeekFrom::Start(0))?;
